@@ -134,6 +134,10 @@ class Report(object):
             self.traces += 1
             self.evaluations += 1
             self.undef += v.get("undef", 0)
+            if "compared" in v:      # binding diagnostic of the dense-time operational model (TraceCt / TraceOp)
+                self.extra["operational_model_updates_matched_exactly"] = self.extra.get("operational_model_updates_matched_exactly", 0) + v["compared"]
+                if v.get("drift"):
+                    self.extra["operational_model_drift_cases"] = self.extra.get("operational_model_drift_cases", 0) + 1
             if nontrivial_key:
                 k = nontrivial_key(c)
                 if k is not None:
@@ -177,6 +181,9 @@ class Report(object):
         if not os.environ.get("VERIF_NOEVIDENCE"):      # (mutant trials must not overwrite the evidence of the real tree)
             with open(os.path.join(EVID, self.prop + ".json"), "w") as f:
                 json.dump(ev, f, indent=1, sort_keys=True)
+        if self.extra.get("operational_model_drift_cases"):
+            print("NOTE: model drift - in %d cases an update() of the real dense-time online monitor did not return exactly the batch that "
+                  "DenseOn!UpdateC computes (diagnostic: the verdicts are taken from the contract clauses only)" % self.extra["operational_model_drift_cases"])
         for i, f_ in sorted(self.open_ids.items()):
             if self.prop in f_["properties"]:
                 print("KNOWN-FINDING: property=%s %s %s (%d cases excused this run)" % (self.prop, i, f_["what"], self.known.get(i, 0)))
